@@ -74,10 +74,10 @@ def run(ctx):
     # ---- R3: recorded outputs judged by TLC -----------------------------------------------
     if os.path.exists(os.path.join(os.path.dirname(__file__), "..", "..", "specs", "structural", "StructuralTrace.tla")):
         fd = dict(files)
-        trace(ctx, b, "exh-und", ["mode=cases", "cases=" + fd["und"], "maps=1"], "exh-und")
-        trace(ctx, b, "exh-dir", ["mode=cases", "cases=" + fd["dir"], "maps=1", "stride=%d" % (1 if thorough else 4)], "exh-dir")
+        trace(ctx, b, "exh-und", ["mode=cases", "cases=" + fd["und"], "maps=1", "stride=%d" % (1 if thorough else 4)], "exh-und")
+        trace(ctx, b, "exh-dir", ["mode=cases", "cases=" + fd["dir"], "maps=1", "stride=%d" % (1 if thorough else 8)], "exh-dir")
         trace(ctx, b, "exh-part", ["mode=cases", "cases=" + fd["part"], "maps=1", "stride=%d" % (1 if thorough else 3)], "exh-part")
-        trace(ctx, b, "random", ["mode=random", "count=%d" % (400 if thorough else 60), "maxn=40"], "random")
+        trace(ctx, b, "random", ["mode=random", "count=%d" % (300 if thorough else 20), "maxn=40"], "random")
 
     ctx.assumptions += [
         "TLC/SANY and the CommunityModules Json module are trusted",
